@@ -81,7 +81,7 @@ def side_conditions(es):
     for fname, sign in (('sin', -1), ('tan', -1), ('tanh', -1), ('sinh', -1), ('arctan', -1), ('arcsin', -1),
                         ('cos', 1), ('cosh', 1)):
         apps = uf_apps.get(fname, [])
-        if len(apps) <= 6:
+        if len(apps) <= 14:
             for i, a in enumerate(apps):
                 for b in apps[i + 1:]:
                     lemmas.append(z3.Implies(a.arg(0) == -b.arg(0), a == sign * b))
